@@ -502,6 +502,15 @@ class Evaluator:
                 # pointer / reference member known to designate an object (set by an inlined constructor)
                 pre = P.mem[p][1][5:]
                 return (pre + '.' if pre else '') + e['n']
+            if p is not None and p in P.mem and P.mem[p][0] == 'alias':
+                # reference member bound, by an inlined constructor, to an object (helper(*this, ...): s(sol))
+                try:
+                    t_ = self.E(P.mem[p][1], P, P.mem[p][2])
+                except Exception:
+                    t_ = ('unk', 'alias')
+                if t_[0] == 'sym' and t_[1].startswith('this:'):
+                    pre = t_[1][5:]
+                    return (pre + '.' if pre else '') + e['n']
             return None if p is None else p + '.' + e['n']
         if b.get('k') == 'un' and b['op'] == '*':
             return self.mpath({'base': b['e'], 'n': e['n']}, P, fr)
@@ -1432,6 +1441,13 @@ class Evaluator:
                     owner, m = cat.resolve_virtual(prog, self.dyn_class, e['n'], sig)
                     c = prog.fn(owner + '::' + e['n'], sig) if owner else None
                     return (c[0], this_path) if c else None
+            elif o.get('k') == 'construct' and not e.get('virt'):
+                # member call on a temporary of a repository class: Helper(*this, x).value()
+                t = self.E(o, P, fr)
+                if t[0] == 'sym' and t[1].startswith('this:@obj'):
+                    this_path = t[1][5:]
+                else:
+                    return None
             elif o.get('k') in ('call', 'global') and not e.get('virt'):
                 # object designated by an accessor (masa_master<S>() returns a reference to a global) or a global itself
                 if o.get('k') == 'call' and not o.get('inrepo'):
